@@ -125,6 +125,29 @@ type captureFormat struct {
 	// would order the workers' accesses and hide data races from the race detector): goroutine id ->
 	// that worker's private buffer; the map is built before the workers are released and only read after
 	slots map[int]*[]string
+	// full mode: the forms of every message of the datagram, held uncopied until the datagram is done
+	held []*formed
+}
+
+const heldMark = "\x00held "
+
+// resolve renders the held forms in place of their markers (after DecodeFlow has returned)
+func (c *captureFormat) resolve(lines []string) []string {
+	if len(c.held) == 0 {
+		return lines
+	}
+	var out []string
+	for _, l := range lines {
+		if strings.HasPrefix(l, heldMark) {
+			i, _ := strconv.Atoi(l[len(heldMark):])
+			if i >= 0 && i < len(c.held) {
+				out = append(out, c.held[i].lines()...)
+			}
+			continue
+		}
+		out = append(out, l)
+	}
+	return out
 }
 
 func (c *captureFormat) Format(data interface{}) ([]byte, []byte, error) {
@@ -141,7 +164,10 @@ func (c *captureFormat) Format(data interface{}) ([]byte, []byte, error) {
 	}
 	var extra []string
 	if c.full && ok {
-		extra = fmtLines(m)
+		c.mu.Lock()
+		c.held = append(c.held, fmtForms(m))
+		extra = []string{heldMark + strconv.Itoa(len(c.held)-1)}
+		c.mu.Unlock()
 	}
 	if c.slots != nil {
 		if p := c.slots[goid()]; p != nil {
@@ -295,6 +321,7 @@ func opPkt(st *state, args []string) []string {
 		return []string{"bad-op"}
 	}
 	pe.cap.lines = nil
+	pe.cap.held = nil
 	msg := &utils.Message{
 		Src:      netip.AddrPortFrom(addr, uint16(port)),
 		Dst:      netip.AddrPortFrom(netip.MustParseAddr("127.0.0.1"), 2055),
@@ -305,7 +332,7 @@ func opPkt(st *state, args []string) []string {
 	func() {
 		defer func() {
 			if r := recover(); r != nil {
-				lines = append([]string{fmt.Sprintf("res panic n=%d # %v", countMsgs(pe.cap.lines), r)}, pe.cap.lines...)
+				lines = append([]string{fmt.Sprintf("res panic n=%d # %v", countMsgs(pe.cap.lines), r)}, pe.cap.resolve(pe.cap.lines)...)
 			}
 		}()
 		err := pe.pipe.DecodeFlow(msg)
@@ -313,7 +340,7 @@ func opPkt(st *state, args []string) []string {
 		if err != nil {
 			res += " # " + strings.ReplaceAll(err.Error(), "\n", " | ")
 		}
-		lines = append([]string{res}, pe.cap.lines...)
+		lines = append([]string{res}, pe.cap.resolve(pe.cap.lines)...)
 	}()
 	return lines
 }
